@@ -35,7 +35,8 @@ DRIVER = "drv_c13"
 RULE = ("scripted introductions: NAT type of requester x of introduced peer (4x4) x placement {public, different NATs, same "
         "NAT, requester public, introduced public} x message style {old, new} x 1..5 candidates at the introducer (extras "
         "on random boxes/types, arrival order random, the designated candidate forced through the patched random.choice) x "
-        "history {introduced peer walked to the introducer, introducer learned it from its response via a fourth node} x "
+        "history of how the introducer learned the candidates {first request, repeated requests after the candidate knows "
+        "its WAN address, response only (via a fourth node), response then request, request then response} x "
         "NAT port policy {preserving, remapped} x LAN numbering drawn from all three RFC 1918 ranges incl. their edges and "
         "colliding /24s x listening ports {all 8090, distinct} x optional noise walks among candidates; plus random "
         "histories: 3-6 hosts, 6-25 random walk/ask ops. distinct = distinct (configuration, op list); non-trivial = at "
@@ -49,13 +50,16 @@ TRUSTED_BASE = [
 ]
 ASSUMPTIONS = [
     "cone NATs only: endpoint-independent mapping (symmetric NAT excluded as in the property); boxes do not hairpin",
-    "the introducer is directly reachable (public, unfiltered); it knows the introduced peer either from that peer's request (the peer walked to it) or from its response (the introducer was introduced to it by a fourth node and walked to it) — both histories are checked",
+    "the introducer is directly reachable (public, unfiltered); it knows the introduced peer from that peer's first request, from repeated requests, from its response (the introducer was introduced to it by a fourth node and walked to it), or both ways in either order — all five histories are checked",
     "the requester's next contact attempt = a walk to every address it was handed, after the puncture has left the introduced peer's NAT",
     "IPv4, endpoint without an `interfaces` attribute, max_peers not reached, empty address blacklist",
 ]
 
 TYPES = ["none", "fullCone", "addrRestricted", "portRestricted"]
 PLACEMENTS = ["public", "diff", "same", "rPub", "pPub"]
+# how the introducer learned the candidates: their first request | repeated requests, the later ones sent after the
+# candidate learned its WAN address | their response only | response, then a request | request, then a response
+HISTORIES = ["normal", "repeat", "response", "resp+req", "req+resp"]
 KIND_BY_CLASS = {
     "IntroductionRequestPayload": ("req", 0), "NewIntroductionRequestPayload": ("req", 1),
     "IntroductionResponsePayload": ("resp", 0), "NewIntroductionResponsePayload": ("resp", 1),
@@ -487,7 +491,7 @@ def scripted(ctx: Ctx, cfg: dict, use_model: bool, batch: list):
             else:
                 spec = lay.boxed_host(rng.choice(list(lay.boxes)))
             extras.append(w.add_host(*spec, rng.choice(TYPES)))
-        X = w.add_host(*lay.public_host(), "none") if cfg["history"] != "normal" else None
+        X = w.add_host(*lay.public_host(), "none") if cfg["history"] in ("response", "resp+req") else None
         hosts = w.net.hosts
         cands = [P, *extras]
         rng.shuffle(cands)
@@ -504,14 +508,22 @@ def scripted(ctx: Ctx, cfg: dict, use_model: bool, batch: list):
         new = cfg["style"] == "new"
         if new:
             w.walk(R, iaddr)                       # the requester is known to the introducer before any candidate is
-        if history == "normal":
+        def by_request(repeat: bool):
+            # the candidate walks to the introducer; with `repeat` it contacts it once more AFTER it learned its own WAN
+            # address from the first response (its request then carries source_wan_address != source_lan_address)
             for c in cands:
                 w.walk(c, iaddr)
                 if new:
                     w.ask(c, I)
-        else:
-            # "response": the introducer learned the candidates from their RESPONSES.  A second public node X introduces
-            # each candidate to I (X's puncture request makes the candidate open its NAT towards I), then I walks to it.
+                if repeat:
+                    if new:
+                        w.ask(c, I)
+                    else:
+                        w.walk(c, iaddr)
+
+        def by_response():
+            # the introducer learns the candidates from their RESPONSES.  A second public node X introduces each
+            # candidate to I (X's puncture request makes the candidate open its NAT towards I), then I walks to it.
             for c in cands:
                 w.walk(c, hosts[X].wan)
                 if new:
@@ -524,6 +536,22 @@ def scripted(ctx: Ctx, cfg: dict, use_model: bool, batch: list):
                     w.ask(I, X)
                 for a, _ns in w.walkable(I):
                     w.walk(I, a)
+
+        if history == "normal":
+            by_request(False)
+        elif history == "repeat":
+            by_request(True)
+        elif history == "response":
+            by_response()
+        elif history == "resp+req":       # learned from the response first, then the candidate also walks to the introducer
+            by_response()                 # (it knows its WAN address by then: X's response told it)
+            by_request(False)
+        elif history == "req+resp":       # learned from the request first, then the introducer asks the candidate itself
+            by_request(False)
+            for c in cands:
+                w.ask(I, c)
+        else:
+            raise ValueError(history)
         if cfg.get("noise"):
             for c in cands:
                 for a, _ns in w.walkable(c)[:3]:
@@ -776,27 +804,23 @@ def run(ctx: Ctx):
     batch: list = []
     use_model = ctx.model_ok
     lan_table_check(ctx, use_model, batch)
-    for cfg in table_cfgs(ctx.rng, ctx.scale(2, 12)):
-        scripted(ctx, cfg, use_model, batch)
-        if len(batch) >= 200:
-            flush(ctx, batch)
-    # the other history: the introducer learned the candidates from their responses (it was introduced to them by X)
-    for cfg in table_cfgs(ctx.rng, ctx.scale(1, 6), history="response"):
-        scripted(ctx, cfg, use_model, batch)
-        if len(batch) >= 200:
-            flush(ctx, batch)
+    # every way the introducer can have learned the candidates (HISTORIES) x the whole configuration table
+    for hist in HISTORIES:
+        for cfg in table_cfgs(ctx.rng, ctx.scale(1, 4), history=hist):
+            scripted(ctx, cfg, use_model, batch)
+            if len(batch) >= 200:
+                flush(ctx, batch)
     if ctx.thorough():
-        # exhaustive small scope: every configuration x every candidate count x port policy x port numbering x history
-        for hist in ("normal", "response"):
+        # exhaustive small scope: every configuration x every candidate count x port policy x history
+        for hist in HISTORIES:
             for base in table_cfgs(ctx.rng, 1, history=hist):
                 for ncand in range(1, 6):
                     for ports in ("preserve", "remap"):
-                        for same_port in (True, False):
-                            cfg = dict(base, ncand=ncand, ports=ports, same_port=same_port, seed=ctx.rng.randrange(1 << 30))
-                            scripted(ctx, cfg, use_model, batch)
-                            ctx.count("exhaustive-scope")
-                            if len(batch) >= 200:
-                                flush(ctx, batch)
+                        cfg = dict(base, ncand=ncand, ports=ports, seed=ctx.rng.randrange(1 << 30))
+                        scripted(ctx, cfg, use_model, batch)
+                        ctx.count("exhaustive-scope")
+                        if len(batch) >= 200:
+                            flush(ctx, batch)
     for _ in range(ctx.scale(150, 2500)):
         random_history(ctx, ctx.rng.randrange(1 << 30), use_model, batch)
         if len(batch) >= 200:
@@ -818,8 +842,8 @@ def sample_trace(ctx: Ctx):
 def search(ctx: Ctx, reason: str):
     """implementation-only: the whole table with more variants, every candidate count"""
     lan_table_check(ctx, False, [])
-    for hist, v in (("normal", 6), ("response", 3)):
-        for cfg in table_cfgs(ctx.rng, v, history=hist):
+    for hist in HISTORIES:
+        for cfg in table_cfgs(ctx.rng, 3, history=hist):
             scripted(ctx, cfg, False, [])
             if len(ctx.failures) >= 20:
                 return
